@@ -27,7 +27,7 @@ RULE = (
     "on 3-4-5 directions, mindist in {0, 1e-3..1e4}; (b) seeded random clouds at scales 1e-6..1e8 with coincident data/force points; "
     "(c) dyadic clouds shifted by dyadic offsets (bit-identical Jacobians required); (d) VectorSpline2D with Poisson in [-1,1] incl. "
     "+-1 and mindist in {0, 1e-3..1e4}; (e) Trend degrees 0..6; (f) CheckerBoard with default and explicit wavelengths; (g) Linear / "
-    "Cubic with both rescale settings on isotropic and strongly anisotropic clouds; (h) integer-typed (int32 / int64) query and force coordinates, including values whose squares / powers overflow the integer dtype; (i) life-cycle histories: evaluate, change parameters on the same object (set_params or attribute assignment: CheckerBoard region / amplitude / wavelengths, Spline mindist / forces, VectorSpline2D poisson / mindist, Trend degree, Linear / Cubic rescale between fits, instances of sibling classes with different rescale fitted one after the other), evaluate again; (j) equivalent spellings of option values (rescale as numpy.bool_ / comparison result / 1, 0 / 0-d array; mindist, damping, poisson, degree, amplitude, wavelengths as int / numpy integer / numpy float; region as list / tuple / ndarray of ints or numpy scalars), given positionally, by keyword or through set_params; (k) extra (ignored) coordinate arrays after easting and northing holding NaN gaps, all NaN, +-inf, integer / bool / float32 dtypes in predict, fit, score, grid, scatter and profile (must equal the two-coordinate call bit for bit and the analytic formula); (l) fitted Spline / VectorSpline2D / Trend / Chain / "
+    "Cubic with both rescale settings on isotropic and strongly anisotropic clouds; (h) integer-typed (int32 / int64) query and force coordinates, including values whose squares / powers overflow the integer dtype; (i) life-cycle histories: evaluate, change parameters on the same object (set_params or attribute assignment: CheckerBoard region / amplitude / wavelengths, Spline mindist / forces, VectorSpline2D poisson / mindist, Trend degree, Linear / Cubic rescale between fits, instances of sibling classes with different rescale fitted one after the other), evaluate again; (j) equivalent spellings of option values (rescale as numpy.bool_ / comparison result / 1, 0 / 0-d array; mindist, damping, poisson, degree, amplitude, wavelengths as int / numpy integer / numpy float; region as list / tuple / ndarray of ints or numpy scalars), given positionally, by keyword or through set_params; (k) extra (ignored) coordinate arrays after easting and northing holding NaN gaps, all NaN, +-inf, integer / bool / float32 dtypes in predict, fit, score, grid, scatter and profile (must equal the two-coordinate call bit for bit and the analytic formula); (l) single calls with more than 100 000 query points (predict, 300x400-class grids, scatter, profile) for Trend with asymmetric coefficients, Spline / VectorSpline2D with few forces, CheckerBoard, Linear, Cubic, also compared with the same points in small calls; (m) pickle round trips, copy.deepcopy and copy.copy of fitted gridders (Linear / Cubic with rescale=True on anisotropic offset coordinates, Spline, VectorSpline2D, Trend, Chain, Vector with KNeighbors); (n) fitted Spline / VectorSpline2D / Trend / Chain / "
     "Vector / SplineCV through predict, grid, scatter and profile. Parameters are set by hand (unit vectors, random vectors) on unfitted "
     "estimators as well as estimated by fit; queries are 0-d, 1-D, 2-D and 3-D. A monitored evaluation is non-trivial when its kernel "
     "arguments contain a coincident pair or at least one distance in each of (0,1), [1,e) and >= e (spline family), degree >= 2 (Trend), "
@@ -43,7 +43,7 @@ ASSUMPTIONS = [
     "only the numpy engine runs (numba is not installed); float64 Jacobians only (other dtypes are counted as skipped)",
     "queries have easting and northing of equal shape (DESIGN 3(d)); other calls are counted as skipped",
 ]
-FLOORS = {  # ~40 % of what the unchanged tree produces at quick seed 0 (observed counts are in evidence/C03.json); thorough = 20 x
+FLOORS = {  # ~40 % of what the unchanged tree produces at quick seed 0 (observed counts are in evidence/C03.json); thorough = 20 x (large-count stream: 4 x)
     "quick": {
         "eval:spline_jacobian": 780, "eval:spline_predict": 1900, "eval:vector_jacobian": 560, "eval:vector_predict": 1800,
         "eval:trend_jacobian": 440, "eval:trend_predict": 1550, "eval:checkerboard_predict": 870, "eval:scipy_predict": 600,
@@ -85,7 +85,19 @@ FLOORS = {  # ~40 % of what the unchanged tree produces at quick seed 0 (observe
         "extras:Cubic:bool": 12, "extras:CheckerBoard:nan_gaps": 12, "extras:CheckerBoard:all_nan": 12, "extras:CheckerBoard:inf": 12,
         "extras:CheckerBoard:nan_and_inf": 12, "extras:CheckerBoard:int32": 12, "extras:CheckerBoard:bool": 12, "extras:predict": 756,
         "extras:fit+predict": 60, "extras:score": 36, "extras:grid": 31, "extras:scatter": 28, "extras:profile": 24,
-        "eval:extra_coordinates_ignored": 936,
+        "eval:extra_coordinates_ignored": 936, "copies:Chain:copy": 4, "copies:Chain:deepcopy": 4, "copies:Chain:pickle": 9,
+        "copies:Cubic(rescale=True):copy": 4, "copies:Cubic(rescale=True):deepcopy": 4, "copies:Cubic(rescale=True):pickle": 9,
+        "copies:Linear(rescale=False):copy": 4, "copies:Linear(rescale=False):deepcopy": 4, "copies:Linear(rescale=False):pickle": 9,
+        "copies:Linear(rescale=True):copy": 4, "copies:Linear(rescale=True):deepcopy": 4, "copies:Linear(rescale=True):pickle": 9,
+        "copies:Spline:copy": 4, "copies:Spline:deepcopy": 4, "copies:Spline:pickle": 9, "copies:Trend:copy": 4, "copies:Trend:deepcopy": 4,
+        "copies:Trend:pickle": 9, "copies:Vector+KNeighbors:copy": 4, "copies:Vector+KNeighbors:deepcopy": 4, "copies:Vector+KNeighbors:pickle": 9,
+        "copies:VectorSpline2D:copy": 4, "copies:VectorSpline2D:deepcopy": 4, "copies:VectorSpline2D:pickle": 9, "large:CheckerBoard:grid": 1,
+        "large:CheckerBoard:predict": 1, "large:CheckerBoard:profile": 1, "large:CheckerBoard:scatter": 1, "large:Cubic:grid": 1,
+        "large:Cubic:predict": 1, "large:Cubic:profile": 1, "large:Cubic:scatter": 1, "large:Linear:grid": 1, "large:Linear:predict": 1,
+        "large:Linear:profile": 1, "large:Linear:scatter": 1, "large:Spline:grid": 1, "large:Spline:predict": 1, "large:Spline:profile": 1,
+        "large:Spline:scatter": 1, "large:Trend:grid": 1, "large:Trend:predict": 1, "large:Trend:profile": 1, "large:Trend:scatter": 1,
+        "large:VectorSpline2D:grid": 1, "large:VectorSpline2D:predict": 1, "large:VectorSpline2D:profile": 1, "large:VectorSpline2D:scatter": 1,
+        "large:points": 1618018, "eval:copies_predict_like_the_original": 163, "eval:large_call_equals_small_calls": 2,
     },
     "thorough": {
         "eval:spline_jacobian": 15500, "eval:spline_predict": 38000, "eval:vector_jacobian": 11400, "eval:vector_predict": 36500,
@@ -130,7 +142,20 @@ FLOORS = {  # ~40 % of what the unchanged tree produces at quick seed 0 (observe
         "extras:Cubic:nan_and_inf": 240, "extras:Cubic:int32": 240, "extras:Cubic:bool": 240, "extras:CheckerBoard:nan_gaps": 240,
         "extras:CheckerBoard:all_nan": 240, "extras:CheckerBoard:inf": 240, "extras:CheckerBoard:nan_and_inf": 240, "extras:CheckerBoard:int32": 240,
         "extras:CheckerBoard:bool": 240, "extras:predict": 15120, "extras:fit+predict": 1200, "extras:score": 720, "extras:grid": 620,
-        "extras:scatter": 560, "extras:profile": 480, "eval:extra_coordinates_ignored": 18720,
+        "extras:scatter": 560, "extras:profile": 480, "eval:extra_coordinates_ignored": 18720, "copies:Chain:copy": 80, "copies:Chain:deepcopy": 80,
+        "copies:Chain:pickle": 180, "copies:Cubic(rescale=True):copy": 80, "copies:Cubic(rescale=True):deepcopy": 80,
+        "copies:Cubic(rescale=True):pickle": 180, "copies:Linear(rescale=False):copy": 80, "copies:Linear(rescale=False):deepcopy": 80,
+        "copies:Linear(rescale=False):pickle": 180, "copies:Linear(rescale=True):copy": 80, "copies:Linear(rescale=True):deepcopy": 80,
+        "copies:Linear(rescale=True):pickle": 180, "copies:Spline:copy": 80, "copies:Spline:deepcopy": 80, "copies:Spline:pickle": 180,
+        "copies:Trend:copy": 80, "copies:Trend:deepcopy": 80, "copies:Trend:pickle": 180, "copies:Vector+KNeighbors:copy": 80,
+        "copies:Vector+KNeighbors:deepcopy": 80, "copies:Vector+KNeighbors:pickle": 180, "copies:VectorSpline2D:copy": 80,
+        "copies:VectorSpline2D:deepcopy": 80, "copies:VectorSpline2D:pickle": 180, "large:CheckerBoard:grid": 2, "large:CheckerBoard:predict": 2,
+        "large:CheckerBoard:profile": 2, "large:CheckerBoard:scatter": 2, "large:Cubic:grid": 2, "large:Cubic:predict": 2, "large:Cubic:profile": 2,
+        "large:Cubic:scatter": 2, "large:Linear:grid": 2, "large:Linear:predict": 2, "large:Linear:profile": 2, "large:Linear:scatter": 2,
+        "large:Spline:grid": 2, "large:Spline:predict": 2, "large:Spline:profile": 2, "large:Spline:scatter": 2, "large:Trend:grid": 2,
+        "large:Trend:predict": 2, "large:Trend:profile": 2, "large:Trend:scatter": 2, "large:VectorSpline2D:grid": 2,
+        "large:VectorSpline2D:predict": 2, "large:VectorSpline2D:profile": 2, "large:VectorSpline2D:scatter": 2, "large:points": 6472072,
+        "eval:copies_predict_like_the_original": 3260, "eval:large_call_equals_small_calls": 8,
     },
 }
 JOBS = {"quick": 1, "thorough": 16}
@@ -140,8 +165,8 @@ MPMATH_BUDGET = {"quick": 260, "thorough": 60}  # per process (thorough runs 16 
 
 def plan(tier):
     if tier == "quick":
-        return collections.OrderedDict(ladder=360, pairs=480, translation=240, vector=420, trend=480, checker=420, scipy=420, fitted=300, integer=210, history=240, spelling=300, extras=210)
-    return collections.OrderedDict(ladder=7200, pairs=9600, translation=4800, vector=8400, trend=9600, checker=8400, scipy=8400, fitted=6000, integer=4200, history=4800, spelling=6000, extras=4200)
+        return collections.OrderedDict(ladder=360, pairs=480, translation=240, vector=420, trend=480, checker=420, scipy=420, fitted=300, integer=210, history=240, spelling=300, extras=210, large=24, copies=96)
+    return collections.OrderedDict(ladder=7200, pairs=9600, translation=4800, vector=8400, trend=9600, checker=8400, scipy=8400, fitted=6000, integer=4200, history=4800, spelling=6000, extras=4200, large=96, copies=1920)
 
 
 # ----------------------------------------------------------------------
@@ -162,6 +187,7 @@ def _pair(coordinates):
 # What the workload last set on a CheckerBoard (constructor, set_params or attribute assignment). The monitor takes the parameters "in force" from
 # here when the instance is registered, so a method that writes a derived default back into the instance cannot make the oracle follow it.
 _INTENDED = weakref.WeakKeyDictionary()
+_SCIPY_FITS = weakref.WeakKeyDictionary()  # SciPy-backed gridder -> arguments of the fit call the monitor observed (copies adopt the original's record)
 
 
 def _intend(board, **params):
@@ -215,7 +241,8 @@ def install(tap, run):
 
     mpmath.mp.dps = 50
     state = {"mp_left": MPMATH_BUDGET.get(run.tier, 100), "mp_rng": np.random.default_rng([run.seed, 3]), "calls": 0}
-    fitted = weakref.WeakKeyDictionary()  # scipy gridder -> what its fit call was given
+    fitted = _SCIPY_FITS  # scipy gridder -> what its fit call was given
+    fitted.clear()
 
     # -- mpmath spot checks ------------------------------------------------
     def mp_spline(e, n, fe, fn, mindist):
@@ -1520,7 +1547,153 @@ def _stream_extras(run, rng, verde, index):
                                       "and, through the predict monitors, against the analytic formula"})
 
 
-_STREAMS = {"extras": _stream_extras, "spelling": _stream_spelling, "history": _stream_history, "integer": _stream_integer, "ladder": _stream_ladder, "pairs": _stream_pairs, "translation": _stream_translation, "vector": _stream_vector,
+def _adopt(copy_obj, original):
+    """A copy / unpickled clone of a fitted SciPy-backed gridder is judged against the fit observed on the original."""
+    rec = _SCIPY_FITS.get(original)
+    if rec is not None:
+        _SCIPY_FITS[copy_obj] = dict(rec)
+
+
+def _values(pred):
+    return tuple(np.asarray(p) for p in (pred if isinstance(pred, tuple) else (pred,)))
+
+
+def _stream_large(run, rng, verde, index):
+    """One call with more than 100 000 query points (branches that exist only above a size threshold)."""
+    kind = index % 6
+    name = ("Trend", "Spline", "VectorSpline2D", "CheckerBoard", "Linear", "Cubic")[kind]
+    scale = gen.log_uniform(rng, 1e0, 1e4)
+    region = (float(rng.normal() * scale), 0.0, float(rng.normal() * scale), 0.0)
+    region = (region[0], region[0] + float(rng.uniform(0.5, 2) * scale), region[2], region[2] + float(rng.uniform(0.5, 2) * scale))
+    n = int(rng.integers(8, 40))
+    east, north = rng.uniform(region[0], region[1], n), rng.uniform(region[2], region[3], n)
+    if kind == 0:
+        degree = int(rng.integers(1, 5))
+        est = verde.Trend(degree)
+        nterms = (degree + 1) * (degree + 2) // 2
+        est.coef_ = rng.normal(size=nterms) * np.arange(1, nterms + 1)  # not symmetric under swapping easting and northing
+        est.region_ = region
+    elif kind == 1:
+        m = int(rng.integers(1, 7))
+        est = _hand_spline(verde, float(rng.choice([0.0, 0.0, 1e-2 * scale])), east[:m].copy(), north[:m].copy(), rng.normal(size=m))
+        est.region_ = region
+    elif kind == 2:
+        m = int(rng.integers(1, 5))
+        est = verde.VectorSpline2D(poisson=float(rng.uniform(-1, 1)), mindist=float(0.05 * scale), force_coords=(east[:m].copy(), north[:m].copy()))
+        est.force_ = rng.normal(size=2 * m)
+        est.region_ = region
+    elif kind == 3:
+        est = verde.synthetic.CheckerBoard(amplitude=float(rng.normal() * 100), region=region, w_east=float(rng.uniform(0.1, 1) * scale), w_north=float(rng.uniform(0.1, 1) * scale))
+    else:
+        cls = verde.Linear if kind == 4 else verde.Cubic
+        corners = np.array([[region[0], region[2]], [region[1], region[2]], [region[0], region[3]], [region[1], region[3]]])
+        est = cls(rescale=bool(rng.random() < 0.5)).fit((np.concatenate([east, corners[:, 0]]), np.concatenate([north, corners[:, 1]])),
+                                                        gen.smooth_field(rng, np.concatenate([east, corners[:, 0]]), np.concatenate([north, corners[:, 1]])))
+    how = ("predict", "grid", "scatter", "profile")[(index // 6) % 4]
+    size = int(rng.choice([131073, 250000, 100001]))
+    if how == "predict":
+        qe, qn = rng.uniform(region[0], region[1], size), rng.uniform(region[2], region[3], size)
+        if rng.random() < 0.5:
+            qe, qn = qe[: size - size % 7].reshape(7, -1), qn[: size - size % 7].reshape(7, -1)
+        whole = _values(est.predict((qe, qn)))
+        # the same points in small calls: a point's value does not depend on how many points share the call
+        flat_e, flat_n = np.ravel(qe), np.ravel(qn)
+        cuts = sorted(set([0, flat_e.size] + [int(c) for c in rng.integers(1, flat_e.size, 6)]))
+        parts = [_values(est.predict((flat_e[a:b], flat_n[a:b]))) for a, b in zip(cuts[:-1], cuts[1:])]
+        run.evaluated("large_call_equals_small_calls")
+        for comp, whole_c in enumerate(whole):
+            pieces = np.concatenate([p[comp] for p in parts])
+            full = np.ravel(whole_c)
+            finite = np.isfinite(full) | np.isfinite(pieces)
+            scale_c = float(np.max(np.abs(full[np.isfinite(full)]))) if np.any(np.isfinite(full)) else 0.0
+            bad = (not np.array_equal(np.isnan(full), np.isnan(pieces))) or (np.any(finite) and float(np.nanmax(np.abs(full[finite] - pieces[finite]))) > 64 * EPS * scale_c)
+            run.count("large:bit_identical_to_small_calls" if np.array_equal(full, pieces, equal_nan=True) else "large:small_calls_differ_within_round_off")
+            if bad:
+                k = int(np.nanargmax(np.where(finite, np.abs(full - pieces), 0.0)))
+                run.violation("large_call_equals_small_calls", "%s.predict of %d points in one call differs from the same points in %d smaller calls at point %d: %r vs %r"
+                              % (name, full.size, len(parts), k, float(full[k]), float(pieces[k])),
+                              {"gridder": repr(est)[:200], "easting": float(flat_e[k]), "northing": float(flat_n[k]), "n_points": int(full.size), "cuts": cuts}, key="large-vs-small:" + name)
+    elif how == "grid":
+        shape = [(300, 400), (257, 513), (401, 333)][int(rng.integers(0, 3))]
+        est.grid(region=region, shape=shape)
+        size = shape[0] * shape[1]
+    elif how == "scatter":
+        est.scatter(region=region, size=size, random_state=int(rng.integers(0, 1000)))
+    else:
+        est.profile(point1=(region[0], region[2]), point2=(region[1], region[3]), size=size)
+    run.count("large:%s:%s" % (name, how))
+    run.count("large:points", size)
+    run.sample("large", {"gridder": name, "how": how, "points": size, "compared": "the monitors on predict judge all points of the single large call; predict is also compared with the same points in small calls"})
+
+
+def _stream_copies(run, rng, verde, index):
+    """pickle round trip, copy.deepcopy and copy.copy of a fitted gridder predict what the original predicts (and what the formula / SciPy gives)."""
+    import copy
+    import pickle
+
+    kind = index % 8
+    name = ("Linear(rescale=True)", "Cubic(rescale=True)", "Linear(rescale=False)", "Spline", "VectorSpline2D", "Trend", "Chain", "Vector+KNeighbors")[kind]
+    n = int(rng.integers(8, 60))
+    east, north = gen.cloud(rng, n, kind="uniform", scale=gen.log_uniform(rng, 1e-1, 1e4), offset_factor=float(rng.choice([0.0, 1.0, 30.0])))
+    if kind < 3:
+        north = north * float(10 ** rng.uniform(1.5, 3.5))  # anisotropic and offset: rescaled and original coordinates differ a lot
+    data = gen.smooth_field(rng, east, north)
+    tri = np.array([rng.choice(n, 3, replace=False) for _ in range(14)])
+    wts = rng.dirichlet(np.ones(3) * 2, 14)
+    query = ((east[tri] * wts).sum(axis=1), (north[tri] * wts).sum(axis=1))
+    try:
+        if kind == 0:
+            est = verde.Linear(rescale=True).fit((east, north), data)
+        elif kind == 1:
+            est = verde.Cubic(rescale=True).fit((east, north), data)
+        elif kind == 2:
+            est = (verde.Linear if index % 16 < 8 else verde.Cubic)(rescale=False).fit((east, north), data)
+        elif kind == 3:
+            est = verde.Spline(damping=float(10 ** rng.uniform(-6, 0)), mindist=float(rng.choice([0.0, 1e-3])) or None).fit((east, north), data)
+        elif kind == 4:
+            est = verde.VectorSpline2D(poisson=float(rng.uniform(-1, 1)), mindist=float(0.1 * np.ptp(east)), damping=1e-3).fit((east, north), (data, gen.smooth_field(rng, east, north)))
+        elif kind == 5:
+            est = verde.Trend(int(rng.integers(0, 4))).fit((east, north), data)
+        elif kind == 6:
+            est = verde.Chain([("trend", verde.Trend(1)), ("spline", verde.Spline(damping=1e-3))]).fit((east, north), data)
+        else:
+            est = verde.Vector([verde.Spline(damping=1e-2), verde.KNeighbors(k=int(rng.integers(1, 4)))]).fit((east, north), (data, gen.smooth_field(rng, east, north)))
+    except Exception as exc:  # noqa: BLE001
+        if "qhull" in (type(exc).__name__ + str(exc)).lower():
+            run.count("refused:qhull")
+            return
+        raise
+    before = _values(est.predict(query))
+    makers = [("pickle", lambda o: pickle.loads(pickle.dumps(o))), ("pickle(protocol=2)", lambda o: pickle.loads(pickle.dumps(o, protocol=2))),
+              ("deepcopy", copy.deepcopy), ("copy", copy.copy)]
+    for label, make in makers:
+        clone = make(est)
+        _adopt(clone, est)
+        got = _values(clone.predict(query))
+        again = _values(est.predict(query))
+        run.evaluated("copies_predict_like_the_original")
+        run.count("copies:%s:%s" % (name, label.split("(")[0]))
+        same_clone = all(np.array_equal(a, b, equal_nan=True) for a, b in zip(before, got))
+        same_orig = all(np.array_equal(a, b, equal_nan=True) for a, b in zip(before, again))
+        if not same_clone or not same_orig:
+            what = "the %s predicts differently from the original" % label if not same_clone else "the original predicts differently after %s was taken" % label
+            run.violation("copies_predict_like_the_original", "%s: %s" % (name, what),
+                          {"gridder": repr(est)[:200], "copy_made_by": label, "data_east": east, "data_north": north, "data": data, "query_east": query[0], "query_north": query[1],
+                           "original": list(before), "copy": list(got), "original_afterwards": list(again)}, key="copies:%s:%s" % (name.split("(")[0], label.split("(")[0]))
+        else:
+            run.mark_nontrivial("copies", name, label, east, north, data)
+        if label == "deepcopy" and kind in (3, 5):  # refitting the copy must not reach the original
+            clone.fit((east, north), -3.0 * data)
+            after_refit = _values(est.predict(query))
+            run.evaluated("copies_predict_like_the_original")
+            if not all(np.array_equal(a, b, equal_nan=True) for a, b in zip(before, after_refit)):
+                run.violation("copies_predict_like_the_original", "%s: refitting the deepcopy changed the predictions of the original" % name,
+                              {"gridder": repr(est)[:200]}, key="copies:shared-state:" + name)
+    run.sample("copies", {"gridder": name, "n": n, "compared": "predictions of pickled / deep-copied / shallow-copied fitted gridders against the original (bit-identical) and, through the predict "
+                                                                "monitors, against the formula / SciPy on the points of the observed fit"})
+
+
+_STREAMS = {"large": _stream_large, "copies": _stream_copies, "extras": _stream_extras, "spelling": _stream_spelling, "history": _stream_history, "integer": _stream_integer, "ladder": _stream_ladder, "pairs": _stream_pairs, "translation": _stream_translation, "vector": _stream_vector,
             "trend": _stream_trend, "checker": _stream_checker, "scipy": _stream_scipy, "fitted": _stream_fitted}
 
 
